@@ -91,6 +91,11 @@ class _:
             for name, param, kind, dom in LOSS_SPECS[:10]:
                 for w in ("none", "mask", "fractional"):
                     yield dict(shape=list(shp), loss=name, param=param, kind=kind, dom=list(dom), w=w, R=2, seed=rng.randrange(10**6))
+        # higher orders with unequal mode sizes (the multi-mode kernel treats first / middle / last modes differently)
+        for shp in [(4, 2, 3, 2), (2, 3, 2, 5), (2, 3, 2, 3, 2)]:
+            for name, param, kind, dom in LOSS_SPECS[:3]:
+                for w in ("none", "mask"):
+                    yield dict(shape=list(shp), loss=name, param=param, kind=kind, dom=list(dom), w=w, R=3, seed=rng.randrange(10**6))
 
     def run(self, case):
         ttb = import_pyttb()
